@@ -573,6 +573,17 @@ func init() {
 		})
 	}
 	libSpecs["(time.Time).Unix"] = pureUF("time_UnixS")
+	// pure functions of time values (opaque results)
+	libSpecs["(time.Time).Add"] = pureUF("time_Add")
+	libSpecs["(time.Time).Sub"] = pureUF("time_Sub")
+	libSpecs["(time.Time).After"] = pureUF("time_After")
+	libSpecs["(time.Time).Before"] = pureUF("time_Before")
+	libSpecs["(time.Time).Equal"] = pureUF("time_Equal")
+	libSpecs["(time.Time).IsZero"] = pureUF("time_IsZero")
+	libSpecs["time.Since"] = func(e *Engine, st *State, fn *ssa.Function, args []Val, pos token.Pos, k Kont) {
+		k(st, e.havocResults(st, fn.Signature, "since"))
+	}
+	libSpecs["time.Until"] = libSpecs["time.Since"]
 	libSpecs["time.Now"] = func(e *Engine, st *State, fn *ssa.Function, args []Val, pos token.Pos, k Kont) {
 		k(st, e.havocResults(st, fn.Signature, "now"))
 	}
